@@ -53,6 +53,10 @@ struct Scn {
     idle_fresh: usize,
     half_sent: bool,
     waiters: [usize; 3], // polled before close / while closing / after close returned
+    /// > 0: the clients that stay ask for a response of this many bytes, have a small
+    /// receive buffer and only start reading (slowly) once close() has been requested:
+    /// the response is still in the server's buffers when shutdown begins
+    big: usize,
 }
 
 impl Scn {
@@ -81,8 +85,9 @@ impl Scn {
                 .join("+")
         };
         format!(
-            "inflight={},noticed={},idle={}/{},half={},waiters={}/{}/{}",
+            "inflight={},big={},noticed={},idle={}/{},half={},waiters={}/{}/{}",
             inf,
+            self.big,
             self.wait_noticed as u8,
             self.idle_keepalive,
             self.idle_fresh,
@@ -96,14 +101,46 @@ impl Scn {
 
 /// Client side of a connection that stays: optionally read the pending
 /// response, then wait for the server to close the connection.
-fn watch_conn(ctx: &Ctx, mut s: TcpStream, c: u32, pending: Option<u32>, wait: Duration) {
+fn watch_conn(ctx: &Ctx, mut s: TcpStream, c: u32, pending: Option<u32>, wait: Duration, big: usize) {
     let _ = s.set_read_timeout(Some(wait));
     if let Some(r) = pending {
-        match read_one(&s) {
-            Some(resp) if resp.well_formed && resp.status == 200 && resp.body == b"ok" => {
-                ctx.log(Ev::RespDelivered(r))
+        if big > 0 {
+            // a slow reader: the head, then the body in small pieces
+            let mut got: Vec<u8> = Vec::new();
+            let mut buf = vec![0u8; 32 * 1024];
+            let mut need: Option<usize> = None;
+            loop {
+                if let Some(n) = need {
+                    if got.len() >= n {
+                        break;
+                    }
+                }
+                match s.read(&mut buf) {
+                    Ok(0) | Err(_) => break,
+                    Ok(n) => got.extend_from_slice(&buf[..n]),
+                }
+                if need.is_none() {
+                    if let Some(p) = got.windows(4).position(|w| w == b"\r\n\r\n") {
+                        need = Some(p + 4 + big);
+                    }
+                }
+                std::thread::sleep(Duration::from_micros(300));
             }
-            _ => return,
+            let complete = need.map(|n| got.len() == n).unwrap_or(false)
+                && got.starts_with(b"HTTP/1.1 200")
+                && got[got.len() - big..].iter().all(|b| *b == b'x');
+            if complete {
+                ctx.log(Ev::RespDelivered(r));
+            } else {
+                return;
+            }
+        } else {
+            match read_one(&s) {
+                Some(resp) if resp.well_formed && resp.status == 200 && resp.body == b"ok" => {
+                    ctx.log(Ev::RespDelivered(r))
+                }
+                _ => return,
+            }
         }
     }
     let mut b = [0u8; 256];
@@ -127,6 +164,26 @@ fn watch_conn(ctx: &Ctx, mut s: TcpStream, c: u32, pending: Option<u32>, wait: D
     }
 }
 
+/// A client socket with a small receive buffer (set before connecting, so the window is small).
+fn open_small_rcvbuf(rt: &Arc<tokio::runtime::Runtime>, addr: std::net::SocketAddr) -> Option<TcpStream> {
+    for _ in 0..50 {
+        let r = rt.block_on(async {
+            let sock = tokio::net::TcpSocket::new_v4()?;
+            sock.set_recv_buffer_size(16 * 1024)?;
+            let s = sock.connect(addr).await?;
+            s.into_std()
+        });
+        if let Ok(s) = r {
+            let _ = s.set_nonblocking(false);
+            let _ = s.set_read_timeout(Some(Duration::from_secs(10)));
+            let _ = s.set_write_timeout(Some(Duration::from_secs(10)));
+            return Some(s);
+        }
+        std::thread::sleep(Duration::from_millis(20));
+    }
+    None
+}
+
 fn run_scenario(rt: &Arc<tokio::runtime::Runtime>, id: &str, sc: &Scn) -> String {
     let ctx = Ctx::new();
     let server = start(rt, &ctx, sc.mode);
@@ -139,6 +196,7 @@ fn run_scenario(rt: &Arc<tokio::runtime::Runtime>, id: &str, sc: &Scn) -> String
     let mut fin_kept: Vec<TcpStream> = Vec::new();
     let mut before: Vec<(u32, bool)> = Vec::new();
     let mut after: Vec<u32> = Vec::new();
+    let mut big_conns: Vec<u32> = Vec::new();
 
     // ---- A. connections ------------------------------------------------------
     for _ in 0..sc.idle_keepalive {
@@ -172,8 +230,19 @@ fn run_scenario(rt: &Arc<tokio::runtime::Runtime>, id: &str, sc: &Scn) -> String
     for (rel, cl, dropctx) in &sc.inflight {
         c += 1;
         let r = 10 * c;
-        let Some(mut s) = open(addr) else { late += 1; continue };
-        let path = if *dropctx { format!("/wd/{}", r) } else { format!("/w/{}", r) };
+        let slow = sc.big > 0 && *cl == Client::Stays && !*dropctx;
+        let opened = if slow { open_small_rcvbuf(rt, addr) } else { open(addr) };
+        let Some(mut s) = opened else { late += 1; continue };
+        let path = if *dropctx {
+            format!("/wd/{}", r)
+        } else if slow {
+            format!("/w/{}?big={}", r, sc.big)
+        } else {
+            format!("/w/{}", r)
+        };
+        if slow {
+            big_conns.push(c);
+        }
         let _ = send_logged(&ctx, &mut s, &get(&path), Ev::ReqSent(c, r));
         if !ctx.wait_for(&Ev::Start(r), DEADLINE) {
             late += 1;
@@ -260,7 +329,8 @@ fn run_scenario(rt: &Arc<tokio::runtime::Runtime>, id: &str, sc: &Scn) -> String
     let mut readers = Vec::new();
     for (s, c, pending) in staying.drain(..) {
         let ctx = ctx.clone();
-        readers.push(std::thread::spawn(move || watch_conn(&ctx, s, c, pending, read_wait)));
+        let big = if big_conns.contains(&c) { sc.big } else { 0 };
+        readers.push(std::thread::spawn(move || watch_conn(&ctx, s, c, pending, read_wait, big)));
     }
     // Handlers still held (and not yet cancelled) keep shutdown from finishing.
     let holding = after.iter().any(|r| !ctx.has(&Ev::Drop(*r)));
@@ -384,7 +454,7 @@ fn main() {
         k += 1;
         v.push((format!("{}{}", tag, k), s));
     };
-    let base = |mode| Scn { mode, inflight: vec![], wait_noticed: false, idle_keepalive: 0, idle_fresh: 0, half_sent: false, waiters: [1, 1, 1] };
+    let base = |mode| Scn { mode, inflight: vec![], wait_noticed: false, idle_keepalive: 0, idle_fresh: 0, half_sent: false, waiters: [1, 1, 1], big: 0 };
     // 1. systematic
     for &m in &modes {
         // nothing in flight
@@ -395,6 +465,9 @@ fn main() {
         for rel in [Release::BeforeDone, Release::Before, Release::After] {
             add(&mut scenarios, "s", Scn { inflight: vec![(rel, Client::Stays, false)], ..base(m) });
             add(&mut scenarios, "s", Scn { inflight: vec![(rel, Client::Stays, false)], idle_keepalive: 1, idle_fresh: 1, waiters: [2, 2, 2], ..base(m) });
+            // a large response to a slow reader, still being written when shutdown is requested
+            add(&mut scenarios, "s", Scn { inflight: vec![(rel, Client::Stays, false)], big: 6 << 20, ..base(m) });
+            add(&mut scenarios, "s", Scn { inflight: vec![(rel, Client::Stays, false), (Release::After, Client::Stays, false), (rel, Client::Leaves(How::Rst), false)], big: 3 << 20, idle_keepalive: 1, ..base(m) });
             for h in How::ALL {
                 add(&mut scenarios, "s", Scn { inflight: vec![(rel, Client::Leaves(h), false)], ..base(m) });
                 // the handler drops its RequestContext early; close() is requested only
@@ -442,6 +515,7 @@ fn main() {
                 idle_fresh: rng.below(3) as usize,
                 half_sent: false,
                 waiters: [rng.below(4) as usize, rng.below(4) as usize, rng.below(4) as usize],
+                big: if i % 10 == 3 { (1 + rng.below(6) as usize) << 20 } else { 0 },
             },
         );
     }
